@@ -865,7 +865,10 @@ def fxpmult_cfgs(tier):
             for rf in ((1, 1, 1), (1, 2, 2), (1, 3, 1), (1, 2, 0), (1, 1, 3), (1, 4, 3)):
                 if af[2] + bf[2] - rf[2] >= 0 and (af[2] + bf[2] - rf[2]) + sum(rf) <= sum(af) + sum(bf):
                     out.append(dict(af=af, bf=bf, rf=rf))
-    return out if tier == 'thorough' else out[::2]
+    # narrow results of fine-grained operands: the window starts above the result's own width
+    out = [dict(af=(1, 0, 3), bf=(1, 0, 3), rf=(1, 1, 0)), dict(af=(1, 0, 3), bf=(1, 0, 3), rf=(1, 0, 1)), dict(af=(1, 1, 3), bf=(1, 1, 3), rf=(1, 2, 0)),
+           dict(af=(1, 0, 4), bf=(1, 0, 4), rf=(1, 2, 1))] + (out if tier == 'thorough' else out[::2])
+    return out
 
 
 spec('FixedPointMult', 'C14', fxpmult_cfgs, b_fxpmult, r_fxpmult,
